@@ -3,6 +3,8 @@
 open Model
 open Model.SccM
 type string = Stdlib.String.t
+let max = Stdlib.max
+let min = Stdlib.min
 open Conv
 
 let nats l = List.map nat_of_int l
